@@ -15,7 +15,7 @@ import (
 )
 
 func init() {
-	register(&Rule{ID: "T-INDEX", Props: []string{"C12", "C04", "C01", "C08"}, Floor: 26,
+	register(&Rule{ID: "T-INDEX", Props: []string{"C12", "C04", "C01", "C08"}, Floor: 13,
 		Doc: "Bracket specifiers, by path enumeration of the index/slice parser over a symbolic token stream (helpers inlined, any source form): the token sequences it accepts are exactly `n ]`, `[n] : [n] ]` and `[n] : [n] : [n] ]`; every consumed token is pinned to one type; an index node carries the integer parsed from its token (the small form only under 0..255); a slice node carries the parsed bounds or the defaults 0 / MaxInt / 1, with MaxInt / MinInt for absent bounds exactly when the parsed step is negative; a zero step is never accepted; slices, and only slices, are reported as projections.",
 		Run: ruleTIndex})
 }
@@ -294,7 +294,7 @@ func boundStr(v int64) string {
 // ---------------------------------------------------------------- T-FUNC
 
 func init() {
-	register(&Rule{ID: "T-FUNC", Props: []string{"C02", "C08", "C04"}, Floor: 42,
+	register(&Rule{ID: "T-FUNC", Props: []string{"C02", "C08", "C04"}, Floor: 12,
 		Doc: "Function calls, by path enumeration of the function-call parser with the name pinned to each built-in of the specification in turn (arity helpers inlined whatever their form; only the expression entry is opaque): the accepted argument lists are exactly `arg {, arg} )` with the specified minimum and maximum count and `&` exactly at the specified position; the node built is the specified one for that count and carries the parsed arguments in order; arguments are parsed below every operator's binding power; too few or too many arguments yield InvalidFunctionCallError, a missing `&` InvalidFunctionArgumentError, an unknown name UnknownFunctionError.",
 		Run: ruleTFunc})
 }
@@ -329,7 +329,7 @@ func (s *State) argList(node AV) ([]AV, bool) {
 		}
 		out := make([]AV, a.n)
 		for i := range out {
-			out[i], _ = s.load(avPtr{a.o, fmt.Sprintf("[%d]", i)})
+			out[i], _ = s.load(avPtr{a.o, a.path + fmt.Sprintf("[%d]", i)})
 		}
 		return out, true
 	}
@@ -377,7 +377,7 @@ func ruleTFunc(p *Program, r *Reporter) {
 	run := func(fn *ssa.Function, name string) ([]Outcome, *Engine) {
 		e, st := d.start(fn)
 		d.opaqueOnly = map[*ssa.Function]bool{d.exprFn: true}
-		e.MaxVisits = 3
+		e.MaxVisits = 5
 		d.SetToken(st, 1, "UnquotedIdentifierToken", &name)
 		d.SetToken(st, 2, "OpenParenToken", nil)
 		return e.Run(fn, []AV{avPtr{d.pobj, ""}}, st), e
@@ -551,11 +551,13 @@ func ruleTFunc(p *Program, r *Reporter) {
 				continue
 			}
 			want := ""
+			may := func(it patItem, tok string) bool { return it.Type == tok+"Token" || (it.Type == "" && !excludes(it, tok)) }
 			switch {
-			case !expectArg && curr.Type == "CloseParenToken" && k < spec.min,
-				expectArg && len(args) == 0 && curr.Type == "CloseParenToken":
+			case !expectArg && may(curr, "CloseParen") && k < spec.min,
+				expectArg && len(args) == 0 && may(curr, "CloseParen"):
+				// the path reports a `)` that comes too early (possibly together with other tokens): that is an arity fault
 				want = "InvalidFunctionCallError"
-			case !expectArg && curr.Type == "CommaToken" && spec.max >= 0 && k == spec.max:
+			case !expectArg && may(curr, "Comma") && spec.max >= 0 && k == spec.max:
 				want = "InvalidFunctionCallError"
 			case spec.expref == k+1 && !amp && (expectArg && excludes(curr, "Expression") || !expectArg && curr.Type == "CommaToken" && excludes(next, "Expression")):
 				want = "InvalidFunctionArgumentError"
